@@ -209,6 +209,10 @@ func (v *Verifier) verifyOne(b *Block, bd map[string]int64, variant int) (tr *Ta
 			if !c.IsLoop {
 				uses = append(uses, c)
 			}
+		case "inline":
+			for _, n := range strings.FieldsFunc(c.Text, func(r rune) bool { return r == ',' || r == ' ' }) {
+				ex.forceInline[n] = true
+			}
 		case "reveal":
 			for _, n := range strings.FieldsFunc(c.Text, func(r rune) bool { return r == ',' || r == ' ' }) {
 				ex.revealed[n] = true
